@@ -261,7 +261,7 @@ class Sequence:
     def split(self, capacities: list[int]) -> list[Sequence]:
         """See `scoda.sequence.relative_sequence.RelativeSequence.split`."""
         relative_sequences = self.rel.split(capacities)
-        sequences = [Sequence(relative_sequence=seq) for seq in relative_sequences]
+        sequences = [Sequence(relative_sequence=seq.copy()) for seq in relative_sequences]
         return sequences
 
     def scale(self, factor, meta_sequence=None, quantise_afterwards=True) -> None:
@@ -464,7 +464,7 @@ class Sequence:
         """
         from scoda.elements.bar import Bar
 
-        sequences = [sequence for sequence in sequences_input]
+        sequences = [sequence.copy() for sequence in sequences_input]
 
         # Split into bars, carry key and time signature
         current_point_in_time = 0
@@ -515,7 +515,7 @@ class Sequence:
 
             # Split sequence into bars
             for i, sequence in enumerate(sequences):
-                split_up = sequence.split([length_bar])
+                split_up = [Sequence(relative_sequence=seq) for seq in sequence.rel.split([length_bar])]
 
                 # Check if we reached the end of the sequence
                 if len(split_up) > 1:
